@@ -129,26 +129,29 @@ Fixpoint split_eq (l cur : bytes) : list bytes :=
   | x :: r => if x =? 61 then rev cur :: split_eq r [] else split_eq r (x :: cur)
   end.
 
-(* for i := range options { if lower(options[i]) == "max-age" { options[i+1]; break } } *)
-Fixpoint cc_range (all : list bytes) (rest : list bytes) (i : nat) : res unit :=
-  match rest with
-  | [] => Ok tt
-  | o :: rest' =>
-      if is_max_age o then
-        (if Nat.ltb (S i) (List.length all) then Ok tt else Panic)   (* options[i+1] *)
-      else cc_range all rest' (S i)
+(* as repaired (#21):
+   if len(options)%2 == 0 { for i := 0; i+1 < len(options); i += 2 {
+     if lower(options[i]) == "max-age" { options[i+1]; break } } }
+   [n] bounds the number of iterations (never exhausted: i grows by 2) *)
+Fixpoint cc_pairs (n : nat) (all : list bytes) (i : nat) : res unit :=
+  match n with
+  | O => Ok tt
+  | S n' =>
+      if Nat.ltb (i + 1) (List.length all) then
+        match nth_error all i with
+        | None => Panic
+        | Some k =>
+            if is_max_age k then
+              match nth_error all (i + 1) with None => Panic | Some _ => Ok tt end
+            else cc_pairs n' all (i + 2)
+        end
+      else Ok tt
   end.
 
 Definition cache_control (v : bytes) : res unit :=
   let options := split_eq v [] in
-  if Nat.eqb (Nat.lxor (List.length options) 2) 0   (* len(options)^2 == 0 *)
-  then cc_range options options 0 else Ok tt.
-
-Definition known_C08_ssdp_cc (v : bytes) : bool :=
-  match split_eq v [] with
-  | [a; b] => negb (is_max_age a) && is_max_age b
-  | _ => false
-  end.
+  if Nat.eqb (Nat.modulo (List.length options) 2) 0
+  then cc_pairs (List.length options) options 0 else Ok tt.
 
 Record ssdp_view := mkSsdp {
   sv_kind : N;          (* 0: "NOTIFY " prefix, 1: "M-SEARCH " prefix, 2: anything else (response) *)
@@ -171,5 +174,3 @@ Definition process_ssdp (v : ssdp_view) : res unit :=
   else if sv_kind v =? 1 then (if sv_man_ok v then Ok tt else Err EParseFrame)
   else (if sv_status_ok v then Ok tt else Err EParseFrame).
 
-Definition known_C08_ssdp (v : ssdp_view) : bool :=
-  sv_http_ok v && (sv_kind v =? 0) && (sv_nts v =? 0) && sv_method_notify v && known_C08_ssdp_cc (sv_cc v).
